@@ -6,7 +6,7 @@
    kernel by the per-pixel correspondence run of bin/props/C35.py.  Over R.  Orthographic pixel origins as repaired in /repo 2e971a4.  Not covered: shading,
    textures, flex, splats, mesh/hfield geoms (Warp mesh query builtin). *)
 From Coq Require Import ZArith Reals List Bool String.
-From VF Require Import Base.Scalar Base.ScalarR Base.Vec Base.Loop Base.Kernel Model.Ray Gen.T_render_util Proof.Ray.
+From VF Require Import Base.Scalar Base.ScalarR Base.Vec Base.Loop Base.Kernel Model.Ray Gen.T_bvh Gen.T_render_util Proof.Ray.
 Import ListNotations.
 Local Open Scope R_scope.
 
@@ -134,6 +134,35 @@ Theorem C35_cull_on : forall (dir : list R) (d : R) (n : list R),
   @cull_hit R ScalarR true dir (d, n) = if Rleb 0 d && Rltb 0 (dot3 dir n) then (-1, n) else (d, n).
 Proof. exact cull_hit_on. Qed.
 Print Assumptions C35_cull_on.
+
+(* scene-BVH leaf layout written by build_scene_bvh / refit_scene_bvh (geom_leaf = hand model of
+   _compute_bvh_bounds' index, whose stride argument is read from the source by the check; flex_leaf = index of
+   the TRANSLATED _compute_flex_bvh_bounds): with the stride ngeom + nflexgeom, in EVERY world the leaf of enabled
+   geom k is read back as enabled_geom_ids[k] by the ray kernels, flex leaves are skipped, and no two
+   (world, primitive) pairs share a leaf *)
+Theorem C35_refit_leaf_layout : forall (n f w : Z) (en : Z -> Z),
+  (forall k, (0 <= k < n)%Z -> bvh_geom_of n f w en (geom_leaf (n + f) w k) = Some (en k)) /\
+  (forall j, (0 <= j)%Z -> bvh_geom_of n f w en (flex_leaf (n + f) n w j) = None) /\
+  (forall w' k k', (0 <= k < n + f)%Z -> (0 <= k' < n + f)%Z ->
+     geom_leaf (n + f) w k = geom_leaf (n + f) w' k' -> w = w' /\ k = k').
+Proof. exact refit_leaf_layout. Qed.
+Print Assumptions C35_refit_leaf_layout.
+
+Theorem C35_flex_bounds_write_index :
+  forall (w j : Z) (flex_vertadr flex_vertnum : Z -> Z) (flex_edge : Z -> list Z) (flex_radius : Z -> R)
+         (flexvert_xpos : Z -> Z -> list R) (flex_geom_flexid flex_geom_edgeid : Z -> Z) (bvh_ngeom total : Z)
+         (lower_out upper_out : Z -> list R) (group_out : Z -> Z) (orc : nat -> Z),
+  Forall (fun wr => w_idx wr = [flex_leaf total bvh_ngeom w j])
+         (k__compute_flex_bvh_bounds w j flex_vertadr flex_vertnum flex_edge flex_radius flexvert_xpos flex_geom_flexid
+                                     flex_geom_edgeid bvh_ngeom total lower_out upper_out group_out orc).
+Proof. exact flex_bounds_write_index. Qed.
+Print Assumptions C35_flex_bounds_write_index.
+
+(* a stride that leaves out the flex primitives puts (world 1, geom 0) on world 0's first flex leaf *)
+Theorem C35_stride_without_flex_refuted : forall (n f : Z) (en : Z -> Z), (0 <= n)%Z -> (1 <= f)%Z ->
+  geom_leaf n 1 0 <> geom_leaf (n + f) 1 0 /\ bvh_geom_of n f 0 en (geom_leaf n 1 0) = None.
+Proof. exact stride_without_flex_refuted. Qed.
+Print Assumptions C35_stride_without_flex_refuted.
 
 (* the hypotheses of the pixel theorems are satisfiable *)
 Example C35_pixel_hypotheses_satisfiable : (0%Z <> 1%Z) /\ (0 < 8)%Z /\ (0 < 6)%Z /\ 0 < 1 / 100 /\ (0 <= 3 < 8)%Z.
